@@ -486,7 +486,31 @@ def rule_e(ctx):
     ctx.floor(R, 1)
 
 
+def rule_f(ctx):
+    R = "C12.f"
+    ctx.rule(R, "swatches are extracted in the order the reference lists them: the region of interest reaches the extraction with its first marker "
+             "(the brown swatch) first; a cyclic re-ordering that is meant to bring the element at position p to the front must roll by -p "
+             "(np.roll(x, p) moves it to position 2p) -- otherwise source and reference swatches are paired off by a quarter turn")
+    m = ctx.model
+    n = 0
+    for f in [g for k in m.mod(CC).classes.values() for g in k.methods.values()]:
+        for c in ast.walk(f.node):
+            if isinstance(c, ast.Call) and norm(c.func) == "np.roll" and len(c.args) >= 2:
+                n += 1
+                ctx.instance(R)
+                sh = expand(f.node, c.args[1])
+                neg = isinstance(sh, ast.UnaryOp) and isinstance(sh.op, ast.USub)
+                core = sh.operand if neg else sh
+                positional = isinstance(core, ast.Call) and (norm(core.func) in ("np.argmin", "np.argmax", "np.nanargmin", "np.nanargmax", "int") or (isinstance(core.func, ast.Attribute) and core.func.attr == "index"))
+                if positional:
+                    ctx.ob(R, f.qname, f"`{norm(c)[:60]}`: a position found by a search is rolled to the front with a negative shift", neg,
+                           f"the shift `{norm(sh)[:60]}` is the position itself: np.roll moves that element further back instead of to the front", c, evidence=True)
+    ctx.instance(R, 0)
+    ctx.ob(R, CC, f"{n} cyclic re-ordering(s) in the colour-correction module checked", True, "", None)
+
+
 def run(ctx):
+    rule_f(ctx)
     # colour corrections are applied to images and arrays through the shared BaseCorrection workflow
     from . import c10 as _c10
     from .common import shared as _shared
